@@ -550,24 +550,24 @@ class SimpleFormula(
             expr = sanitize_variable_names(factor.expr, {}, aliases)
             return get_expression_variables(expr, {}, aliases)
 
+        # Filter out constants like `contr` that are already present in the
+        # TRANSFORMS namespace (but not looked up names: a bare name as a
+        # factor is a data or context value, whatever it is called).
+        from formulaic.transforms import TRANSFORMS
+
         variables: list[Variable] = [
             variable
             for term in self.__terms
             for factor in term.factors
             for variable in get_factor_variables(factor)
             if "value" in variable.roles
+            and (
+                factor.eval_method is Factor.EvalMethod.LOOKUP
+                or variable.split(".", 1)[0] not in TRANSFORMS
+            )
         ]
 
-        # Filter out constants like `contr` that are already present in the
-        # TRANSFORMS namespace.
-        from formulaic.transforms import TRANSFORMS
-
-        return set(
-            filter(
-                lambda variable: variable.split(".", 1)[0] not in TRANSFORMS,
-                Variable.union(variables),
-            )
-        )
+        return Variable.union(variables)
 
     def __repr__(self) -> str:
         return " + ".join([str(t) for t in self.__terms])
